@@ -167,5 +167,8 @@ func Accept(cfg Cfg, t *T, opt string) (Verdict, string) {
 		}
 		return v, ewhy
 	}
+	if t.K == KRaw {
+		return MustReject, "unsupported kind " + t.Named
+	}
 	return MustReject, "unsupported kind"
 }
